@@ -473,7 +473,10 @@ class EndpointResponseHandlerGenerator:
 
                             type_service = UnifiedTypeService(self.schemas)
                             response_type = type_service.resolve_schema_type(resp_schema, context)
-                            if self._should_use_cattrs_structure(response_type):
+                            if response_type == "str" and all(ct.startswith("text/") for ct in resp_ir.content):
+                                # text/* body declared as a plain string: returned verbatim, not parsed as JSON
+                                writer.write_line("return response.text")
+                            elif self._should_use_cattrs_structure(response_type):
                                 # The primary response may not have needed cattrs, so import it here as well
                                 self._register_cattrs_import(context)
                                 deserialization_code = self._get_cattrs_deserialization_code(response_type, data_expr)
